@@ -103,7 +103,13 @@ func (g *gen) genFuncFor(typ *types.Slice) error {
 	p.P("for i := 0; i < len(list); i++ {")
 	p.In()
 	p.P("contains := false")
-	p.P("hash := %s(list[i])", g.hash.GetFuncName(typ.Elem()))
+	if derive.IsComparable(typ.Elem()) && derive.HasEqualMethod(typ.Elem()) {
+		// The Equal method of the element type decides, and nothing says that the derived hash agrees with it:
+		// every element is compared with all the elements that were kept before it.
+		p.P("hash := uint64(0)")
+	} else {
+		p.P("hash := %s(list[i])", g.hash.GetFuncName(typ.Elem()))
+	}
 	p.P("indexes := table[hash]")
 	p.P("for _, index := range indexes {")
 	p.In()
